@@ -63,6 +63,29 @@ func depLoopBefore(fn *ssa.Function, site ssa.Instruction, ranged func(ssa.Value
 			return true, "all dependencies checked, any failure returns"
 		}
 	}
+	// the loop extracted into a helper of the package: the site lies in the success
+	// region of a call to a function whose every success return follows such a loop
+	if fn.Parent() == nil {
+		for _, hc := range callsIn(fn) {
+			h := hc.Instr.Common().StaticCallee()
+			if h == nil || h.Pkg != fn.Pkg || h == fn || len(h.Blocks) == 0 || len(callsInNamed(h, callee)) == 0 || !inSuccessRegion(hc.Instr, site) {
+				continue
+			}
+			all, n := true, 0
+			for _, ret := range returnsOf(h) {
+				if classifyReturn(ret) == RetFailure {
+					continue
+				}
+				n++
+				if ok, _ := depLoopBefore(h, ret, ranged, callee, argIdx); !ok {
+					all = false
+				}
+			}
+			if all && n > 0 {
+				return true, "dependency loop in " + funcName(h) + ", site in its success region"
+			}
+		}
+	}
 	return false, "no completed loop over the dependencies performing the check precedes it"
 }
 
